@@ -3,7 +3,7 @@ CONSTANTS
   Emit = FALSE
   Prop = "C06"
   MaxCalls = 3
-  MaxDocs = 4
+  MaxDocs = 6
   NTexts = 6
 INVARIANTS
   Check
